@@ -49,6 +49,7 @@ func regWorker() {
 	})
 	simple("time.NewTicker", func(s *State, a []Value) Value {
 		stats.stubs["time.NewTicker:model"]++
+		s.counters["stub:time.NewTicker:model"]++
 		id := s.allocType(tickerT, "time.Ticker")
 		// field C is the first field
 		s.heap[id].Cells[0] = NativeV{&kChan{kind: "ticker"}}
